@@ -22,7 +22,9 @@ func init() {
 					if strings.HasPrefix(o.Detail, "over-rejection") {
 						return false // rejecting with a diagnostic is always admissible for C12 (it is C11's concern)
 					}
-					return strings.HasSuffix(o.Construct, " L") || strings.Contains(o.Construct, ": goto") || strings.Contains(o.Construct, ": fallthrough")
+					// plus: a range loop that stays native (unsupported operand kinds are left alone) is a break /
+					// continue target of its own
+					return strings.HasSuffix(o.Construct, " L") || strings.Contains(o.Construct, ": goto") || strings.Contains(o.Construct, ": fallthrough") || strings.Contains(o.Construct, "Range")
 				}
 				if o.Rule == "RW.RANGEDISPATCH" { // the supported kinds are C04's
 					return strings.Contains(o.Construct, "pointer") || strings.Contains(o.Construct, "func") || strings.Contains(o.Construct, "type parameter") || strings.Contains(o.Construct, "typeparam")
@@ -66,6 +68,11 @@ func init() {
 			c.guard("RW.NOLOSS", r.ruleCover)
 			// "iteration ends exactly where the source body would return": `return` lowers to the Return signal
 			c.guard("RW.TMPL.RETURN", r.rulePass0)
+			// "iteration ends exactly where the source body would return": once an advance reported false no
+			// generator code runs again (a stale continuation re-runs the tail of the body)
+			c.guard("SEQ.GEN", s.ruleGenHist)
+			// statements run in source order: what follows a yielding if / switch / loop waits for it
+			c.guard("RW.CLOSE", r.ruleCloseContract)
 			// C01 answers for the supported subset: unlabelled break/continue (labelled forms, goto and fallthrough are C12's)
 			c.keep(func(o Obligation) bool {
 				if o.Rule == "RW.BRANCHCTX" {
@@ -78,11 +85,16 @@ func init() {
 					return false
 				case "RW.TMPL.RETURN": // ordinary closures are C13's
 					return !strings.HasPrefix(o.Construct, "nested ordinary closure")
+				case "SEQ.GEN":
+					return strings.HasPrefix(o.Construct, "MoveNext") || o.Construct == "coverage"
+				case "RW.CLOSE": // closing of thunk bodies is C11's
+					return strings.HasPrefix(o.Construct, "combine decision between statements")
 				}
 				return true
 			})
 			c.min("RW.NOLOSS", 20)
 			c.min("RW.TMPL.RETURN", 4)
+			c.min("SEQ.GEN", 2)
 			c.min("RW.BRANCHCTX", 200)
 			c.min("RW.KINDTAB", 3)
 			c.min("SEQ.FOR", 6)
@@ -116,6 +128,9 @@ func init() {
 			// (a post statement fired before the first iteration changes a local between suspensions)
 			s3 := newSeqRT(c)
 			c.guard("SEQ.FOR", s3.ruleFor)
+			// a yielded expression reads its variables when the yield is reached: the Delay around a Bind may only
+			// be elided for basic literals (a composite literal mentioning locals would be evaluated once, early)
+			c.guard("OPT.WHITELIST", func() { r.ruleOptWhitelist(s3) })
 			// scoping only: the combine table, hoisting (not return rewriting), the consumer loop's binding form
 			c.keep(func(o Obligation) bool {
 				switch o.Rule {
@@ -123,8 +138,10 @@ func init() {
 					return o.Construct == "combineRequired"
 				case "RW.TMPL.RETURN", "RW.TMPL.RANGE.TUPLE": // evaluation order of '=' range bindings is C04's
 					return false
-				case "RW.TMPL.IF", "RW.TMPL.SWITCH": // dropped statements / clauses are C01's; only the guard's binding is scoping
+				case "RW.TMPL.SWITCH": // dropped clauses are C01's; only the guard's binding is scoping
 					return false
+				case "RW.TMPL.IF": // each if / else-if keeps its *own* initialiser in place (shadowing in initialisers)
+					return true
 				case "RW.TMPL.FOR":
 					return strings.Contains(o.Construct, "wrapped in a thunk")
 				case "SEQ.FOR":
@@ -226,8 +243,16 @@ func init() {
 			// pull-style code: a consumer's closure `func() bool { return cur.MoveNext() }` over its own iterator
 			// variable must keep reading the variable at each call (a method value binds the receiver once)
 			c.guard("OPT.ETA", r.ruleOptEta)
+			// "without pulling any further element": an iterator that reported exhaustion stays exhausted when the
+			// same value is pulled or ranged over again
+			s6 := newSeqRT(c)
+			c.guard("SEQ.GEN", s6.ruleGenHist)
 			c.keep(func(o Obligation) bool {
 				switch o.Rule {
+				case "SEQ.GEN":
+					return strings.HasPrefix(o.Construct, "MoveNext") || o.Construct == "coverage"
+				case "SEQ.LAZY":
+					return false
 				case "RW.FILEPASSES":
 					return strings.HasPrefix(o.Construct, "order of passes")
 				case "OPT.ETA":
@@ -351,8 +376,19 @@ func init() {
 			c.guard("RW.TMPL.RETURN", r.rulePass0)
 			c.guard("OPT.WHITELIST", func() { r.ruleOptWhitelist(s) })
 			c.guard("OPT.RULES", r.ruleOptRules)
+			// what a loop condition reads is read when the condition runs (a method value binds its receiver when
+			// the loop is built); which map entry comes next is decided when it is demanded (no snapshot)
+			c.guard("OPT.ETA", r.ruleOptEta)
+			c.guard("ITER.MAP", s.ruleIterMap)
+			c.guard("RW.CLOSE", r.ruleCloseContract)
 			c.keep(func(o Obligation) bool {
 				switch o.Rule {
+				case "RW.CLOSE":
+					return strings.HasPrefix(o.Construct, "combine decision between statements")
+				case "OPT.ETA":
+					return strings.HasPrefix(o.Construct, "callee is a method value") || strings.HasPrefix(o.Construct, "callee is a function variable") || o.Construct == "pattern shape" || o.Construct == "liveness"
+				case "ITER.PURE", "ITER.ASSERT":
+					return false
 				case "RW.DISPATCH", "RW.FIELDCOV", "RW.DEEPVISIT", "RW.BLOCKSTATE": // rejection and yield coverage are C12's, panics C11's
 					return false
 				case "RW.TMPL.HOIST":
